@@ -50,3 +50,9 @@ class PolledSocket(Socket):
     the connection is closed and poll returns false); recv() after a true poll returns a non-empty fragment"""
     def poll(self, event, timeout=None):
         return self.pos < len(self.inp)
+
+
+class MiuSocket(Socket):
+    """a connection whose send MIU option is the ghost field `miu`"""
+    def getsockopt(self, option):
+        return self.miu
